@@ -543,6 +543,16 @@ def helper_affine(program, name):
     except NonAffine as e:
         return {'nonaffine': str(e), 'line': fn.lineno, 'term': show(term)}, None
     if a is None:
+        # not affine as a term (a conditional inside the returned expression): a present value that comes back as absent is still a witness
+        from . import rules_help as _H, teval as _T
+        rows_ = [e for e in ex.events if e[0] in ('return', 'raise')]
+        for x in (0, 0.0, 1, -1, 2.5, 273.15, 100000):
+            try:
+                r_ = _H._eval_rows(rows_, {ex.params[0]: x})
+            except (_T.EvalUnknown, KeyError, TypeError, ValueError, ZeroDivisionError, OverflowError):
+                break
+            if r_ == ('return', None) or r_[0] in ('raise', 'fall'):
+                return {'present_lost': x, 'outcome': r_, 'line': fn.lineno}, None
         return None, 'return value is not an affine function of the argument: ' + show(term)
     return {'a': a[0], 'b': a[1], 'digits': a[2], 'none_to_none': none_ok, 'line': fn.lineno, 'term': show(term)}, None
 
